@@ -86,7 +86,7 @@ def detect(name, tier):
                                                   'wall_s': round(time.time() - t0), 'caught': rc == 1 and bool(vio),
                                                   'with_failing_input': bool(vio) and 'no-failing-input-found' not in vio[0]}
     finally:
-        sh('git -C /repo checkout -- .')
+        sh('git -C /repo checkout -- . && git -C /repo clean -fdq')
         rc2, out2 = sh('git -C /repo status --porcelain')
         assert out2.strip() == '', 'could not restore /repo: ' + out2
     # evidence files are rewritten by every run: refresh them from the unchanged tree
